@@ -29,6 +29,8 @@ class State:
         self.findings = []      # (key, what, case)  direct-predicate failures on the implementation
         self.corr_broken = []   # (what, cases)
         self.aliasing_notes = set()
+        self.getreceipt_repaired = False
+        self.witnesses = {}     # refuted statement -> (reproduced on the real code?, how)
         self.fams = []          # (name, coq type, ok function, [coq item], [source case], preamble)
         self.rules = []
 
@@ -938,6 +940,18 @@ def corpus_family(ctx, st):
             cri.append("(%s, %s)" % (cb(hb(c["raw"])), dt))
             crs.append(src)
         st.nontrivial.add(("corpus", c.get("why")))
+    # witnesses of the refuted injectivity statements: the shifted twins have the same identifier (input) on the real code
+    tw = [(c, o) for c, o in zip(cases, obs) if "twin" in (c.get("why") or "") or "same identifier input as the next case" in (c.get("why") or "")]
+    hh = [o for c, o in tw if c["kind"] == "H"]
+    tt = [o for c, o in tw if c["kind"] == "T"]
+    st.witnesses["C19_header_input_not_injective_refuted"] = (len(hh) == 2 and hh[0]["full"] == hh[1]["full"] and hh[0]["calc"] == hh[1]["calc"],
+                                                             "corpus twins (byte moved PubKey->CoinbaseAccount): same writeBlockHeader output and block hash")
+    st.witnesses["C19_tx_input_not_injective_refuted"] = (len(tt) == 2 and tt[0]["hash"] == tt[1]["hash"],
+                                                         "corpus twins (byte moved Account->Recipient): same CalculateTxHash")
+    cf = [o for c, o in zip(cases, obs) if c["kind"] == "R" and c["r"].get("CumFee")]
+    st.witnesses["C19_receipt_store_cumfee_refuted"] = (bool(cf) and all(("d2" not in o) or not o.get("d2_rest_ok") for o in cf),
+                                                       "corpus receipt with CumulativeFeeUsed=0708: V2 store decode does not return the receipt "
+                                                       "(absurd event count, not executed / panic)")
     st.add_family("corpus_headers", "header * bytes * bytes", "header_case_ok", hi, hs)
     st.add_family("corpus_txs", "txbody * bytes", "(fun c : txbody * bytes => let '(t, d) := c in bytes_eqb (tx_hash sha256 t) d)", ti, ts)
     st.add_family("corpus_receipts", "receipt * (option bytes * option bytes * option bytes * option bytes) * (option receipt * option receipt)",
@@ -1025,6 +1039,8 @@ def genesis_store_family(ctx, st):
                     "(chain id / timestamp / producers / genesis block id)", rep)
         if g["total"] and b["Total"] != str(g["total"]):
             st.fail("C19:genesis-store-total", "genesis total balance read back differs", rep)
+        if g["total"] == 0:
+            st.witnesses["C19_genesis_zero_total_reads_absent"] = (b["Total"] == "", "genesis with total balance 0 written by the real ChainDB reads back with TotalBalance() == nil")
         bt = None if b["Total"] == "" else int(b["Total"])
         bc = b["Cid"]
         items.append("(%s, (%s, %s), %s)" % (
@@ -1118,7 +1134,7 @@ def store_family(ctx, st):
     st.chain_bin = binpath
     cases, meta = [], []
     cfgs = [[10, 20, 30, 40], [0, 0, 0, 0], [5, 5, 9, 2 ** 63]]
-    nb = 6 if quick else 60
+    nb = 5 if quick else 60
     for i in range(nb):
         cfg = rng.choice(cfgs)
         no = rng.choice([0, 1, cfg[0] - 1 if cfg[0] else 0, cfg[0], cfg[0] + 1, 15, 2 ** 40])
@@ -1155,7 +1171,7 @@ def store_family(ctx, st):
                                   ([10, 20, 30, 40], '{"V2":10,"V3":20,"V4":30,"V5":40,"V6":44}', None, 44), ([30, 20, 10, 40], "", None, 5),
                                   ([0, 0, 0, 0], '{}', None, 0), ([1, 2, 3, 4], '{"V2":0}', None, 0)]:
         hfc.append({"kind": "HF", "Cfg": cfg, "CfgRead": rd, "Best": best, "DbJSON": stored})
-    for _ in range(4 if quick else 200):
+    for _ in range(2 if quick else 200):
         cfg = sorted(rng.randrange(0, 100) for _ in range(4))
         if rng.random() < 0.2:
             rng.shuffle(cfg)
@@ -1191,6 +1207,10 @@ def store_family(ctx, st):
                 # the configuration of the restarted node selects the other receipt format for this block:
                 # CheckCompatibility must refuse it whenever the block is not above the best block
                 hf = run_engine(ctx, binpath, "TestVerifStoreEngine", [{"kind": "HF", "Cfg": c["Cfg"], "CfgRead": cr, "Best": c["BlockNo"], "DbJSON": ""}], "store_hf1")[0]
+                st.witnesses["C19_db_receipts_version_mismatch_refuted"] = (
+                    o["v2_write"] != o["v2_read"] and not hf.get("compat"),
+                    "real configs select different receipt formats for the stored block (IsV2Fork %s vs %s); the decode itself is NOT executed "
+                    "(it allocates from garbage counts); CheckCompatibility refuses that restart" % (o["v2_write"], o["v2_read"]))
                 if hf.get("compat"):
                     st.fail("C19:compat-accepts-v2-switch-change", "CheckCompatibility accepts a configuration that decodes stored receipts of block "
                             "%d with the other format version" % c["BlockNo"], {"case": rep, "hardfork_obs": hf})
@@ -1220,6 +1240,8 @@ def store_family(ctx, st):
                     continue      # decoded with the other format version: garbage / slice panics are expected (see db_receipts)
                 gitems.append("(%d%%nat, %d%%Z, %d)" % (n, i, cls))
                 gsrc.append(rep)
+                if i == n and cls == 1:
+                    st.getreceipt_repaired = True
                 if cls == 2:
                     st.fail("C19:getreceipt-index-equal-length-panics", "ChainDB.getReceipt(idx = number of receipts) panics "
                             "(index out of range): the bound test is `idx > len`", rep)
@@ -1277,7 +1299,11 @@ def bloom_family(ctx, st):
     shapes = [[0], [1], [2, 0, 1], [0, 0], [3, 3], [1, 0, 0, 2, 5]] + [[rng.randrange(0, 4) for _ in range(rng.randrange(0, 5))] for _ in range(6 if quick else 150)]
     for shape in shapes:
         rs = [[{"Addr": rng.choice(pool_addr).hex(), "Name": rng.choice(pool_name).hex()} for _ in range(n)] for n in shape]
-        probes = [e for r in rs for e in r] + [{"Addr": rng.choice(probe_addr).hex(), "Name": rng.choice(pool_name).hex()} for _ in range(3)] \
+        own = [e for r in rs for e in r]
+        foreign_a, foreign_n = (bytes([3]) + rbytes(rng, 32)).hex(), rbytes(rng, 9).hex()
+        # a search by name only (foreign address) and by address only (foreign name) must find the event too
+        probes = own + [{"Addr": foreign_a, "Name": e["Name"]} for e in own] + [{"Addr": e["Addr"], "Name": foreign_n} for e in own] \
+            + [{"Addr": rng.choice(probe_addr).hex(), "Name": rng.choice(pool_name).hex()} for _ in range(3)] \
             + [{"Addr": rbytes(rng, 33).hex(), "Name": rbytes(rng, 6).hex()} for _ in range(2)]
         cases.append({"receipts": rs, "probes": probes})
     obs = run_engine(ctx, binpath, "TestVerifBloomEngine", cases, "bloom")
@@ -1290,9 +1316,14 @@ def bloom_family(ctx, st):
         st.nontrivial.add(("BL", tuple(min(len(r), 3) for r in c["receipts"])[:4]))
         # direct predicates: no false negative for any event, receipt-level and block-level, before and after the store round trip
         pi = 0
+        nown = sum(len(r) for r in c["receipts"])
         for ri, r in enumerate(c["receipts"]):
             for e in r:
                 for tag in ("", "2"):
+                    for off, what in ((nown, "event name alone (foreign address)"), (2 * nown, "contract address alone (foreign event name)")):
+                        if not o["answers" + tag][pi + off][ri] or not o["block_answers" + tag][pi + off]:
+                            st.fail("C19:bloom-false-negative", "a search by %s does not find the event through the receipt's / block's "
+                                    "bloom filter" % what, rep)
                     if not o["answers" + tag][pi][ri]:
                         st.fail("C19:bloom-false-negative", "an event's contract address / name is not found through its receipt's bloom filter%s"
                                 % (" after the store round trip" if tag else ""), rep)
@@ -1320,7 +1351,52 @@ def bloom_family(ctx, st):
                     "Receipt.BloomFilter / Receipts.BloomFilter answers for every event and for foreign probes, before and after the store round trip")
 
 
-EXTRA_FAMILIES = [corpus_family, receipts_family, merkle_family, hardfork_family, txsign_family, chainid_family, txroot_family, genesis_family, genesis_store_family, store_family, forkboundary_family, bloom_family]
+# ------------------------------------------------------------------ store decoders on truncated / damaged encodings
+def receipt_damage_family(ctx, st):
+    """The decoders have no length checks (stored data is trusted): on damaged input they panic or misparse.  No property is
+    claimed; the family ties the model's decoders (None = out of range) to the Go decoders on every truncation and on bit flips."""
+    rng = ctx.rng
+    quick = ctx.tier == "quick"
+    base = []
+    for ver in (1, 2):
+        small = {"addr": bytes(range(1, 34)), "status": "SUCCESS", "ret": b"ok", "txhash": bytes(32), "fee": b"\x01", "cumfee": b"", "bloom": b"",
+                 "gas": 7, "feedeleg": True, "events": [{"addr": bytes(range(1, 34)), "name": b"e", "args": b"[]", "idx": 0, "txhash": b"",
+                                                         "blockhash": b"", "blockno": 0, "txindex": 0}]}
+        base.append((ver, small, 1))
+        for _ in range(1 if quick else 6):
+            base.append((ver, rand_receipt(rng, True), 5 if quick else 1))
+    enc_cases = [{"kind": "R", "ver": 2, "r": json_receipt(r)} for ver, r, step in base]
+    encs = run_engine(ctx, st.types_bin, "TestVerifCodecEngine", enc_cases, "damage_enc")
+    cases, meta = [], []
+    for (ver, r, step), e in zip(base, encs):
+        data = hb(e["s2"] if ver >= 2 else e["s1"])
+        for n in range(0, len(data), step):
+            cases.append({"kind": "RD", "ver": ver, "raw": data[:n].hex()})
+            meta.append(("trunc", ver))
+        for _ in range(8 if quick else 60):
+            i = rng.randrange(len(data))
+            d = data[:i] + bytes([data[i] ^ (1 << rng.randrange(8))]) + data[i + 1:]
+            cases.append({"kind": "RD", "ver": ver, "raw": d.hex()})
+            meta.append(("flip", ver))
+    obs = run_engine(ctx, st.types_bin, "TestVerifCodecEngine", cases, "damage")
+    items, src = [], []
+    npanic = 0
+    for c, (kind, ver), o in zip(cases, meta, obs):
+        if "d" in o:
+            ob = "(Some (%s, %s))" % (coq_receipt(receipt_from_json(o["d"])), cb(hb(o["d_rest"])))
+        else:
+            ob = "None"
+            npanic += 1
+        items.append("(%s, %s, %s)" % (cbool(ver >= 2), cb(hb(c["raw"])), ob))
+        src.append({"kind": kind, "ver": ver, "raw": c["raw"][:120], "obs": {k: v for k, v in o.items() if k != "d"}})
+        st.nontrivial.add(("RD", kind, ver, "d" in o))
+    st.add_family("receipt_damage", "bool * bytes * option (receipt * bytes)", "decode_raw_ok", items, src)
+    st.aliasing_notes.add("receipt store decoders have no length checks: %d of %d truncated / bit-flipped encodings make them panic or report an "
+                          "absurd event count (stored data is trusted; modelled as None)" % (npanic, len(cases)))
+    st.rules.append("receipt damage: every truncation of a small V1 and V2 store encoding, sampled truncations of random ones, single bit flips")
+
+
+EXTRA_FAMILIES = [corpus_family, receipts_family, merkle_family, hardfork_family, txsign_family, chainid_family, txroot_family, genesis_family, genesis_store_family, store_family, forkboundary_family, bloom_family, receipt_damage_family]
 EXTRA_TARGETS = ["Common/Sha256.vo", "Common/Lit.vo", "Codec/Receipt.vo", "Codec/Merkle.vo", "Codec/Hardfork.vo", "Codec/TxRoot.vo", "Codec/GenesisStore.vo", "Codec/ChainStore.vo", "Codec/Bloom.vo"]  # evaluated models that no theorem depends on
 
 IMPORTS = """From Coq Require Import NArith ZArith List Bool String Uint63.
